@@ -34,6 +34,7 @@ type Obligation struct {
 	Note       string
 	known      bool
 	Cases      []string
+	Vacuous    bool // the obligation's program point is unreachable under the assumptions (contradiction)
 }
 
 // Unit: the verification unit of one function (or one lemma): an SMT log shared by its obligations.
@@ -104,6 +105,21 @@ func (u *Unit) RelaxedQuery(o *Obligation) string {
 
 func (u *Unit) Query(o *Obligation) string { return u.query(o, false) }
 
+// ReachQuery: is the program point of the obligation reachable at all (quantifier-free part of the assumptions)?
+// An unsat answer means the assumptions on that path contradict each other: the obligation would hold vacuously.
+func (u *Unit) ReachQuery(o *Obligation) string {
+	var sb strings.Builder
+	for _, l := range u.Log[:o.LogLen] {
+		if strings.HasPrefix(l, "(assert") && (strings.Contains(l, "(forall ") || strings.Contains(l, "(exists ")) {
+			continue
+		}
+		sb.WriteString(l)
+		sb.WriteByte('\n')
+	}
+	sb.WriteString("(assert " + o.PC + ")\n")
+	return sb.String()
+}
+
 func (u *Unit) query(o *Obligation, relaxed bool) string {
 	var sb strings.Builder
 	for _, l := range u.Log[:o.LogLen] {
@@ -152,6 +168,8 @@ type FuncCtx struct {
 	inlineStack map[*ssa.Function]bool
 	freshRefs map[string]bool
 	guardMode bool
+	guardAcc  map[*ssa.Function]map[int]string
+	autoLoopInv bool
 	recSelf   string
 	loopSpecs map[string]*LoopSpec
 	idxTerms  map[string]map[string]bool
